@@ -3,7 +3,7 @@ spec/SignPipeline.tla, replay them through `vh replay-pipeline` sharded over pro
 import json, os, concurrent.futures as cf
 from .common import *
 
-NEG = ["Stacks", "RefuseMutates", "DropsPayload", "WrongDigestNamed", "ProbeBlind"]
+NEG = ["Stacks", "RefuseMutates", "DropsPayload", "WrongDigestNamed", "ProbeBlind", "SlotDropsOthers"]
 
 OWNER = {  # failure kind -> property that owns it
     "refused-supported": "C01", "signed-unverifiable": "C01", "names-wrong-cert": "C01", "names-nothing": "C01",
